@@ -45,5 +45,13 @@ def explore(core, rng, tier, seed, search=False):
     n = 500 if tier == "quick" else 5000
     scripts = [history(rng, 30, 4) for _ in range(n)]
     scripts += exhaustive(3 if tier == "quick" else 4, 2 if tier == "quick" else 3)
+    # large bimaps (a bulk path of Clear / Clone / Range that only engages beyond some hundreds of pairs): every direction observed afterwards
+    for n in ((300, 1100) if tier == "quick" else (300, 1100, 5000)):
+        sc = ["new 0"] + ["add 0 %d %d" % (k, n - 1 - k) for k in range(n)] + ["len 0", "clone 0 1", "len 1", "clear 0", "len 0"]
+        for k in (0, 1, n // 2, n - 1):
+            sc += ["getf 0 %d" % k, "getr 0 %d" % k, "cf 0 %d" % k, "cr 0 %d" % k, "getr 1 %d" % k, "cf 1 %d" % k]
+        sc += ["range 0 0", "clone 0 2", "len 2", "getr 2 0", "add 0 1 1", "getr 0 1", "getr 0 %d" % (n - 2), "len 0", "obs 0 4",
+               "rmf 1 0", "rmr 1 0", "len 1", "getr 1 %d" % (n - 1), "getf 1 %d" % (n - 1)]
+        scripts.append(sc)
     nt = lambda sc: sum(1 for l in sc if l.startswith("add")) >= 3
     return scriptprop.explore(core, ID, scripts, nontrivial=nt)
